@@ -186,6 +186,8 @@ def flat_theta(rng, pop, n_mech, sig1, n_out):
 
 def gen_seed_triplet(rng):
     s = int(rng.integers(0, 1 << 31))
+    if rng.random() < 0.15:
+        s = int(rng.choice([0, 0, 1, 2]))      # boundary seeds: 0 is a valid (and falsy) integer seed
     s2 = int(s + rng.integers(2, 1000)) if rng.random() < 0.5 else int(rng.integers(0, 1 << 31))
     if s2 == s:
         s2 = s + 7
@@ -712,6 +714,9 @@ def choose_variant(ctx, r, entry, seed, world, observe):
 
 def check_runner(ctx, chi, r, cfg, cls, nontrivial, rng):
     s, s2, g = gen_seed_triplet(rng)
+    if cfg.get('force_seed') is not None:
+        s = int(cfg['force_seed'])
+        s2 = s + 11
     w1, w2 = gen_worlds(rng)
     inp = dict(cfg, seed=s, seed2=s2, gen=list(g), world1=list(w1), world2=list(w2))
     tagc = r.cls
@@ -1045,10 +1050,56 @@ def corpus(ctx, chi):
              {'equal_entries': K.partition(a)[:2]})
 
 
+def bare_models_boundary_seeds(ctx, chi):
+    """elementary population / error models used directly (not inside a composed model, where they
+    receive a Generator), with the boundary integer seeds 0 and 1: same seed twice under different
+    global states and interleaved calls gives identical draws; the two seeds give different draws"""
+    pops = [('GaussianModel', lambda: chi.GaussianModel(), [1.0, 0.5]),
+            ('LogNormalModel', lambda: chi.LogNormalModel(), [0.2, 0.5]),
+            ('TruncatedGaussianModel', lambda: chi.TruncatedGaussianModel(), [1.0, 2.0]),
+            ('GaussianModel(nc)', lambda: chi.GaussianModel(centered=False), [1.0, 0.5])]
+    objs = []
+    for name, mk, th in pops:
+        objs.append((name, mk(), th))
+        red = chi.ReducedPopulationModel(mk())
+        red.fix_parameters({red.get_parameter_names()[-1]: th[-1]})
+        objs.append(('ReducedPopulationModel(%s)' % name, red, th[:-1]))
+    ems = [('GaussianErrorModel', chi.GaussianErrorModel(), [0.5]),
+           ('LogNormalErrorModel', chi.LogNormalErrorModel(), [0.3]),
+           ('ConstantAndMultiplicativeGaussianErrorModel', chi.ConstantAndMultiplicativeGaussianErrorModel(), [0.5, 0.1])]
+    for name, m, th in objs:
+        draws = {}
+        for seed in (0, 1):
+            np.random.seed(12345)
+            a = np.asarray(m.sample(th, n_samples=6, seed=seed), float)
+            np.random.seed(54321)
+            np.random.normal(size=17)
+            chi.GaussianModel().sample([0, 1], n_samples=3, seed=3)
+            b = np.asarray(m.sample(th, n_samples=6, seed=seed), float)
+            inp = {'object': name, 'parameters': th, 'seed': seed, 'case': 'bare-boundary-seed'}
+            ctx.case('bare/%s/seed%d' % (name.split('(')[0], seed), nontrivial='bare/%s/%d' % (name, seed), sample=inp)
+            ctx.spec('C16.reproducible/%s.int_seed' % name.split('(')[0], np.array_equal(a, b), inp,
+                     {'first': a.ravel()[:4], 'second': b.ravel()[:4]})
+            draws[seed] = a
+        ctx.spec('C16.seed_sensitive/%s' % name.split('(')[0], not np.array_equal(draws[0], draws[1]),
+                 {'object': name, 'seeds': [0, 1]})
+    for name, m, th in ems:
+        for seed in (0, 1):
+            np.random.seed(1)
+            a = np.asarray(m.sample(th, [1.0, 2.0], n_samples=4, seed=seed), float)
+            np.random.seed(2)
+            np.random.normal(size=5)
+            b = np.asarray(m.sample(th, [1.0, 2.0], n_samples=4, seed=seed), float)
+            inp = {'object': name, 'seed': seed, 'case': 'bare-boundary-seed'}
+            ctx.case('bare/%s/seed%d' % (name, seed), nontrivial='bare/%s/%d' % (name, seed), sample=inp)
+            ctx.spec('C16.reproducible/%s.int_seed' % name, np.array_equal(a, b), inp)
+
+
 def run(ctx):
     chi = core.import_chi()
     check_numpy_identities(ctx)
     corpus(ctx, chi)
+    ctx.guard(bare_models_boundary_seeds, ctx, chi)
     n = 40 if ctx.tier == 'quick' else 500
     k = 0
     for rep in range(n):
@@ -1062,6 +1113,26 @@ def run(ctx):
             cfg['case'] = k - 1
             K.guarded(ctx, 'C16.no_exception/%s' % r.cls, cfg,
                       lambda: check_runner(ctx, chi, r, cfg, cls, nontriv, rng))
+    # boundary seed 0 (a valid integer seed that is falsy) on every kind of entry point, and on a
+    # population model that contains each elementary sampler
+    wanted = ['gaussian', 'logNormal', 'truncGauss', 'hetero', 'pooled']
+    for j, mk in enumerate(RUNNERS):
+        rng = ctx.sub_rng(10 ** 6 + j)
+        r, cfg, cls, nontriv = mk(chi, rng, filt=False) if mk is runner_init_hier else mk(chi, rng)
+        cfg['case'] = 'seed0/%d' % j
+        cfg['force_seed'] = 0
+        K.guarded(ctx, 'C16.no_exception/%s' % r.cls, cfg,
+                  lambda: check_runner(ctx, chi, r, cfg, cls, nontriv, rng))
+    for j, elem in enumerate(wanted):
+        for t in range(60):
+            rng = ctx.sub_rng(2 * 10 ** 6 + 100 * j + t)
+            r, cfg, cls, nontriv = runner_population(chi, rng)
+            if elem in cls:
+                cfg['case'] = 'seed0/pop/%s' % elem
+                cfg['force_seed'] = 0
+                K.guarded(ctx, 'C16.no_exception/%s' % r.cls, cfg,
+                          lambda: check_runner(ctx, chi, r, cfg, cls, nontriv, rng))
+                break
 
 
 def replay(ctx, data):
